@@ -128,7 +128,8 @@ def judge(case, impl, model):
                 which = "eq-but-fields-differ" if eq[i][j] else "fields-equal-but-ne"
                 stale = _stale_none(impl["states"][i]) | _stale_none(impl["states"][j])
                 if not eq[i][j] and stale:
-                    imm = set(case["cls"].get("immFields") or [])
+                    imm = set(case["cls"].get("immFields") or []) | {
+                        nm for nm, fd in case["cls"]["fields"] if fd.get("k") in ("setAny", "setOf") and fd.get("imm")}
                     which = "none-recorded-over-immutable-field" if stale <= imm else "none-recorded-over-stored-value"
                 fails.append((f"eq-vs-readback:{which}", f"a == b is {eq[i][j]} but field-wise equality of the values read back is "
                               f"{impl['fieldwise'][i][j]}: a={show(i)} b={show(j)}"))
